@@ -242,15 +242,20 @@ Qed.
 
 (* ------------------------------------------------------------ tombstoning preserves the invariant *)
 Lemma SInv_tombstone : forall n s d,
-  SInv n s -> is_iter s = true ->
-  SInv n (mkS (update_node d tombstone (first s)) (is_iter s) true).
+  SInv n s -> SInv n (mkS (update_node d tombstone (first s)) true true).
 Proof.
-  intros n s d [Hn Hs Hi Hd Ht] Hit; constructor; cbn [first is_iter needs_del].
+  intros n s d [Hn Hs Hi Hd Ht]; constructor; cbn [first is_iter needs_del].
   - apply forall_update; auto. intros; apply node_ok_tombstone; auto.
   - rewrite names_update; auto.
   - rewrite filter_live_update. apply nodup_map_filter; auto.
   - discriminate.
-  - rewrite Hit; discriminate.
+  - discriminate.
+Qed.
+
+Lemma SInv_begin : forall n s, SInv n s -> SInv n (begin_iteration s).
+Proof.
+  intros n s [Hn Hs Hi Hd Ht]; constructor; unfold begin_iteration; cbn [first is_iter needs_del]; auto.
+  discriminate.
 Qed.
 
 (* ------------------------------------------------------------ cleanup / end_iteration *)
